@@ -40,7 +40,13 @@ def run(data):
     out = {"before": n1, "fails": f1}
     for i, (nm, sy) in enumerate(data.get("define", [])):
         try:
+            keys_before = [list(k) for k in Dimension._known]
+            objs_before = [id(o) for o in Dimension._known.values()]
+            nfund = len(Dimension._fundamental)
             new = Dimension.define(nm, sy)
+            out.setdefault("rekey", []).append({"fundamental_before": nfund, "keys_before": keys_before, "keys_after": [list(k) for k in Dimension._known],
+                                                "same_objects": [id(o) for o in Dimension._known.values()][:len(objs_before)] == objs_before,
+                                                "keys_are_exponents": all(tuple(k) == tuple(o.exponents) for k, o in Dimension._known.items())})
             u = new.unit(nm + " unit", sy.lower() + "u")
         except Exception as ex:  # noqa
             out["fails"].append([f"after-define-{i}", "define-raises", implib.errclass(ex), str(ex)[:80]]); continue
